@@ -277,6 +277,93 @@ def h08_bucket_reuse(S):
     S.check("each-job-gets-its-own-entries-and-defaults", got == [(1, 10), (2, 50 if second_omits else 20)], info=f"{cname}: actor calls {got}")
 
 
+def h08_same_job_id(S):
+    """Two pending jobs that carry the same id (ids are scoped per topic; nothing de-duplicates them here): each actor call
+    receives its own job's entries, through an argument bucket or inline."""
+    import asyncio
+    from repid import Job, Router, Worker
+    from repid.converter import BasicConverter, DefaultConverter, PydanticConverter
+    from harness.common import World
+
+    cname, conv = [("basic", BasicConverter), ("pydantic", PydanticConverter), ("default", DefaultConverter)][S.pick("converter", 3)]
+    bucket = S.flag("args_through_bucket")
+    same_topic = S.flag("same_topic")
+    second_omits = S.flag("second_job_omits_the_optional_argument")
+    S.tag("converter", cname)
+    got = []
+
+    async def main(loop):
+        w = World(args_bucket=bucket)
+        await w.open(record=False)
+        r = Router()
+
+        @r.actor(converter=conv)
+        async def first(a: int, b: int = 50):
+            got.append(("first", a, b))
+
+        @r.actor(converter=conv)
+        async def second(a: int, b: int = 50):
+            got.append(("second", a, b))
+
+        await Job("first", args={"a": 1, "b": 10}, id_="nightly", _connection=w.conn).enqueue()
+        await Job("first" if same_topic else "second", args={"a": 2} if second_omits else {"a": 2, "b": 20}, id_="nightly", _connection=w.conn).enqueue()
+        worker = Worker(routers=[r], handle_signals=[], _connection=w.conn, graceful_shutdown_time=1.0, messages_limit=2, tasks_limit=1)
+        await asyncio.wait_for(worker.run(), timeout=5)
+
+    run_async(main)
+    S.cover("same-job-id")
+    want = [("first", 1, 10), ("first" if same_topic else "second", 2, 50 if second_omits else 20)]
+    S.check("each-job-gets-its-own-entries-and-defaults", got == want, info=f"{cname}: actor calls {got}, expected {want}")
+
+
+def h08_returns_model(S):
+    """An actor annotated to return a pydantic model: the stored result decodes to the value the actor returned,
+    also where a field is None although its default is not."""
+    import asyncio
+    import json
+    import typing
+    import pydantic
+    from repid import Job, Router, Worker
+    from repid.converter import BasicConverter, DefaultConverter, PydanticConverter
+    from harness.common import World
+
+    class Report(pydantic.BaseModel):
+        done: bool
+        retry_after: typing.Optional[int] = 30
+        note: typing.Optional[str] = None
+
+    cname, conv = [("basic", BasicConverter), ("pydantic", PydanticConverter), ("default", DefaultConverter)][S.pick("converter", 3)]
+    as_dict = S.flag("actor_returns_a_dict")
+    retry_after = [None, 5][S.pick("retry_after", 2)]
+    S.tag("converter", cname)
+    out = {}
+    value = Report(done=True, retry_after=retry_after)
+
+    async def main(loop):
+        w = World(results=True)
+        await w.open(record=False)
+        r = Router()
+
+        async def actor() -> Report:
+            return value.model_dump() if as_dict else value
+
+        r.actor(name="actor", converter=conv)(actor)
+        await Job("actor", id_="j1", result_id="r1", _connection=w.conn).enqueue()
+        worker = Worker(routers=[r], handle_signals=[], _connection=w.conn, graceful_shutdown_time=1.0, messages_limit=1)
+        await asyncio.wait_for(worker.run(), timeout=5)
+        out["bucket"] = await w.rb.get_bucket("r1")
+
+    run_async(main)
+    S.cover("model-returned")
+    b = out["bucket"]
+    S.check("result-stored", b is not None and b.success, info=repr(b))
+    if b is not None and b.success:
+        S.check("encoded-return-value-decodes-to-the-returned-value", Report.model_validate_json(b.data) == value,
+                info=f"{cname}: returned {value!r}, stored {b.data!r}")
+        S.check("encoded-return-value-is-the-models-json", json.loads(b.data) == json.loads(value.model_dump_json()),
+                info=f"{cname}: stored {b.data!r}")
+
+
 HARNESSES = [
     Harness(name="H08-bind", scenario=h08_bind, workers=16, budget_s=900,
             params={"quick": {"n_max": 2}, "thorough": {"n_max": 3}},
@@ -296,4 +383,12 @@ for _be in ("mem", "redis", "rabbit"):
                              bounds={"job": "args=None or args={} through Job.enqueue(), the broker's wire format, a Worker", "converters": "Basic, Pydantic, Default"},
                              functions=["job.py:Job.enqueue", "worker.py:Worker.run"], covers=["no-args-job"],
                              stubs=[] if _be == "mem" else [f"fake {_be} server"]))
+HARNESSES.append(Harness(name="H08-same-job-id", scenario=h08_same_job_id,
+                         bounds={"jobs": "two pending jobs with the same id_ (same or different topic), no explicit args_id, arguments inline or through a bucket",
+                                 "second job": "overrides or omits the optional argument", "converters": "Basic, Pydantic, Default"},
+                         functions=["job.py:Job.__init__", "job.py:Job.enqueue", "_processor.py:_Processor.get_payload"], covers=["same-job-id"]))
+HARNESSES.append(Harness(name="H08-returns-model", scenario=h08_returns_model,
+                         bounds={"return annotation": "a pydantic model with an Optional field whose default is not None", "returned": "the model or a dict of it; the field None or set",
+                                 "converters": "Basic, Pydantic, Default"},
+                         functions=["converter.py:PydanticConverter.convert_outputs", "converter.py:BasicConverter.convert_outputs"], covers=["model-returned"]))
 ASSUMPTIONS = ["finite combinatorial space enumerated by the solver (selectors); payload values are small ints; no arithmetic insight is claimed"]
